@@ -178,3 +178,12 @@ Fixpoint load_seq (l : list (view * string)) : list outcome :=
   | [] => []
   | (v, name) :: r => load v name :: load_seq r
   end.
+
+(** ------------------------------------------------ decoys / the real symbols *)
+(** The symbols the loader can act on for a kernel name: the kernel symbols of
+    that name (positive size, in a section called .text), the symbols called
+    name.kd of size 64, the metadata symbols.  Same-named symbols of other
+    sizes or in other sections ("decoys") are not among them. *)
+Definition effective (secs : list section) (name : string) (y : symbol) : bool :=
+  (is_kernel_sym secs y && has_name name y) || is_kd_sym name y ||
+  String.eqb (y_name y) (sgpr_sym name) || String.eqb (y_name y) (vgpr_sym name).
